@@ -4,6 +4,7 @@ import (
 	"math"
 	"net/http"
 	"sync"
+	"time"
 )
 
 // LeastConnectionsStrategy implements a least-connections load balancing strategy
@@ -31,8 +32,13 @@ func (lc *LeastConnectionsStrategy) NextBackend(r *http.Request) *Backend {
 	var selectedBackend *Backend
 	minConnections := int32(math.MaxInt32)
 
-	// Find the backend with the least active connections
+	// Find the backend with the least active connections among those that
+	// are not inside an unhealthy window
+	now := time.Now()
 	for _, backend := range lc.backends {
+		if !backend.eligible(now) {
+			continue
+		}
 		connections := backend.GetActiveConnections()
 		if connections < minConnections {
 			minConnections = connections
